@@ -278,18 +278,30 @@ RemoveProcInst(w, s, p) ==      \* returns <<w', s'>>
     LET w1 == IF PDecl[p] # {} THEN NotifyRemove(w, p, NoEnt) ELSE w IN
     <<[w1 EXCEPT !.reg = @ \ {p}], SeqWithout(s, p)>>
 
+\* the tables after add_processor(p, pr): <<world record, processor list, priorities>>
+\* (adding an instance that is already present replaces it by itself: on_remove, new priority, new place, on_add)
+AddProcNew(p, pr) ==
+    LET old == OfPType(procs, PTypeOf[p])
+        r1 == IF old = {} THEN <<W0, procs>> ELSE RemoveProcInst(W0, procs, procs[CHOOSE i \in old : TRUE])
+        newpr == IF pr = NoPrio THEN pprio[p] ELSE pr
+        pp == [pprio EXCEPT ![p] = newpr]
+        s2 == InsertAt(r1[2], RightIdx(r1[2], pp, newpr), p)
+        w2 == IF PDecl[p] # {} THEN Notify([r1[1] EXCEPT !.reg = @ \cup {p}], "on_add", p, NoEnt) ELSE r1[1]
+    IN <<w2, s2, pp>>
 AddProcessor(p, pr) ==
     /\ "proc" \in Acts /\ QRoom(2)
-    \* (adding an instance that is already present replaces it by itself: on_remove, new priority, new place, on_add)
-    /\ LET old == OfPType(procs, PTypeOf[p])
-           r1 == IF old = {} THEN <<W0, procs>> ELSE RemoveProcInst(W0, procs, procs[CHOOSE i \in old : TRUE])
-           newpr == IF pr = NoPrio THEN pprio[p] ELSE pr
-           pp == [pprio EXCEPT ![p] = newpr]
-           s2 == InsertAt(r1[2], RightIdx(r1[2], pp, newpr), p)
-           w2 == IF PDecl[p] # {} THEN Notify([r1[1] EXCEPT !.reg = @ \cup {p}], "on_add", p, NoEnt) ELSE r1[1]
-       IN /\ procs' = s2 /\ pprio' = pp /\ Commit(w2)
-          /\ pworld' = [pworld EXCEPT ![p] = TRUE]
+    /\ LET r == AddProcNew(p, pr) IN procs' = r[2] /\ pprio' = r[3] /\ Commit(r[1])
+    /\ pworld' = [pworld EXCEPT ![p] = TRUE]
     /\ ret' = <<"ok", 0, "-">>
+    /\ PK /\ UNCHANGED <<nextAuto, enabled, selfReg, bad>>
+\* the on_add callback of the processor raises (called directly: dispatching enabled): the exception reaches the caller,
+\* the processor is in the world like after any add_processor - listed, found by type, registered - so that adding
+\* another one of its type replaces it
+AddProcessorFault(p, pr) ==
+    /\ "proc" \in Acts /\ "fault" \in Acts /\ enabled /\ "on_add" \in PDecl[p]
+    /\ LET r == AddProcNew(p, pr) IN procs' = r[2] /\ pprio' = r[3] /\ Commit(r[1])
+    /\ pworld' = [pworld EXCEPT ![p] = TRUE]
+    /\ ret' = <<"raised", 0, "-">>
     /\ PK /\ UNCHANGED <<nextAuto, enabled, selfReg, bad>>
 
 RemoveProcessor(T) ==
@@ -477,7 +489,7 @@ Next == \/ (\E id \in Ids \cup {NoEnt}, cs \in CompSeqs : CreateEntity(id, cs))
         \/ (\E e \in Ids, c \in Comps : AddComponent(e, c))
         \/ (\E e \in Ids, T \in Types : RemoveComponent(e, T))
         \/ (\E e \in Ids : DeleteDeferred(e) \/ DeleteImmediate(e))
-        \/ (\E p \in Procs, pr \in Prios \cup {NoPrio} : AddProcessor(p, pr))
+        \/ (\E p \in Procs, pr \in Prios \cup {NoPrio} : AddProcessor(p, pr) \/ AddProcessorFault(p, pr))
         \/ (\E T \in PTypes : RemoveProcessor(T))
         \/ (\E dt \in Dts : Process(dt))
         \/ (\E dt \in Dts, p \in Procs : ProcessProcFault(dt, p))
